@@ -64,8 +64,11 @@ def obs (s : St) : String :=
     let par := match s.t.parent c with | some p => toString p | none => "-"
     s!"n{c}={showStr (s.t.label c)}^{par}"
   let comps := (s.alive.filter fun c => (s.t.kind c).isComposite).map fun p =>
-    let ch := ",".intercalate ((s.t.children p).map fun e => s!"{showStr e.1}>{e.2}")
-    let st := ",".intercalate ((s.t.starting p).map toString)
+    -- the statement fixes neither the order of the children nor that of the starting nodes: by id
+    let chs := ((s.t.children p).toArray.qsort fun a b => a.2 < b.2 || (a.2 == b.2 && showStr a.1 < showStr b.1)).toList
+    let sts := ((s.t.starting p).toArray.qsort fun a b => a < b).toList
+    let ch := ",".intercalate (chs.map fun e => s!"{showStr e.1}>{e.2}")
+    let st := ",".intercalate (sts.map toString)
     "c" ++ toString p ++ "[" ++ ch ++ "]{" ++ st ++ "}"
   " ".intercalate nodes ++ " | " ++ " ".intercalate comps
 
